@@ -44,5 +44,11 @@ theorem fp_net_grpc_grpc_Service_TagRPC : Facts.fp_net_grpc_grpc_Service_TagRPC 
 theorem fp_net_grpc_grpc_Service_HandleRPC : Facts.fp_net_grpc_grpc_Service_HandleRPC = "9fe8322a320257b0" := rfl
 /-- net/grpc/grpc.go: NewService -/
 theorem fp_net_grpc_grpc_NewService : Facts.fp_net_grpc_grpc_NewService = "762bb49eac2c081a" := rfl
+/-- net/grpc/grpc.go: Run -/
+theorem fp_net_grpc_grpc_Run : Facts.fp_net_grpc_grpc_Run = "5ad0b509b3e7a51e" := rfl
+/-- net/grpc/grpc.go: authPasswordInterceptor -/
+theorem fp_net_grpc_grpc_authPasswordInterceptor : Facts.fp_net_grpc_grpc_authPasswordInterceptor = "863bb5cc0537355a" := rfl
+/-- net/net.go: Run -/
+theorem fp_net_net_Run : Facts.fp_net_net_Run = "4cc945e928d276ec" := rfl
 
 end Ldlm.Pins.FP.C15
